@@ -225,7 +225,7 @@ pub fn check(ctx: &mut Ctx) {
         for (i, (ds, de)) in pairs.iter().enumerate() {
             seeds.push(crate::fuzzglue::encode("total", i as u8, 0x10, &format!("x\n{ds}rm name='a' unwrap-block{de}\n{{ {ds}rm name='a'{de}\n y\n{ds}/rm{de} }}\n{ds}/rm{de}\né")));
         }
-        ctx.fuzz_campaign("total", 250_000, 512, seeds, |data| crate::fuzzglue::fuzz_one("total", "C01", data));
+        ctx.fuzz_campaign("total", 80_000, 512, seeds, |data| crate::fuzzglue::fuzz_one("total", "C01", data));
         minimize_src_failure(ctx, "junk-soup");
     }
 }
